@@ -185,7 +185,9 @@ def make_interface(prop):
             base = cname.split("(")[0]
             argstr = cname[len(base) + 1:-1] if "(" in cname and cname.endswith(")") else ""
             items = [a_ for a_ in argstr.split(",") if a_ and not a_.endswith("=None")]
-            return base + ("[k]" if items and base != reader_q and not base.startswith("@") else "")
+            # only plain queries: a derivation that is given a method argument (add_low_rank(root_decomp_method=...), cat_rows(method=...))
+            # requests exactly that keyed entry itself
+            return base + ("[k]" if items and base != reader_q and not base.startswith("@") and reader == reader_q else "")
 
         pairs = sorted({f"{reader}<-{_pair_name(c['name'])}" for c in culprits}) or [f"{reader}<-none"]
         return {"culprits": sorted({f"{c['obj']}{c['path']}:{c['name']}" for c in culprits}),
